@@ -22,7 +22,9 @@ func init() {
 	register("C05", &propDef{
 		Title: "Pack never leaks outside content and always emits a slug Unpack accepts",
 		Rules: []func(*Checker){ruleC05Link, ruleC05Deref, ruleDerefHeader("C05.derefheader"), ruleC05Resolve("C05.resolve"), ruleNestedWalk("C05.nested"), ruleWalkRoles("C05.roles"), ruleAcceptedLinkIsCreated("C05.created"), ruleResolverGetsDiskPath("C05.resolvepath"), rulePredSound("C05.pred"), ruleC05Pos, ruleC04Accept2("C05.accept"), rulePackerWriters("C05.allowlist"), ruleAllowBase("C05.allowbase"), ruleC04Relative("C05.relative"),
-			aliasRuleFiltered(ruleC16Readlink, "C16.readlink", "C05.chain", 1, func(o Oblig) bool { return !strings.Contains(o.Key, "(*slug.Packer).Pack/") })},
+			aliasRuleFiltered(ruleC16Readlink, "C16.readlink", "C05.chain", 1, func(o Oblig) bool { return !strings.Contains(o.Key, "(*slug.Packer).Pack/") }),
+			// SkipDir returned for something that is not a directory skips the rest of the directory it is in: links that sort after it are never judged
+			aliasRuleFiltered(ruleC03Prune, "C03.prune", "C05.skipdir", 1, func(o Oblig) bool { return strings.Contains(o.Key, "SkipDir only for directories") })},
 		NotDecided: []string{
 			"content equality of dereferenced copies",
 			"behaviour of links that are in-tree on disk but whose targets are replaced during the walk",
